@@ -37,8 +37,10 @@ import GV.Lemmas.C06b
       and `parseEvents` — any handler, anything after the packet — returns err = true, crash = false, no call, position
       unchanged); `C06_bytes_value_decode_failure` (stream level, from the head of the log, all 8 configurations, all
       three kinds, bad value in the before image, the after image or both — one statement: the hypothesis is `bad`).
-    Goal C: `C15_packet_count_mismatch`, `C15_bytes_count_redefinition_rejected_partial` (the "same db / name" of the
-      informal statement is not needed: on a re-announcement the mapper is not asked again, whatever the names) and
+    Goal C: `C15_packet_count_mismatch`, `C15_bytes_count_redefinition_same_table_rejected_partial` (the "same db /
+      name" of the informal statement IS needed since the repair of finding F13: on a re-announcement for the same
+      table the mapper is not asked again, for another table it is — see GV/Props/C15c.lean; for streamer.go as found
+      the theorem held whatever the names, under the name `C15_bytes_count_redefinition_rejected_partial`) and
       `C15_bytes_count_redefinition_rejected_refuted`: the statement as given ("a rows event of any kind for that id
       with m-column bitmaps") is FALSE for a rows event that carries NO row — the conversion compares the column counts
       once per row, so a row-less event is delivered without error; `_partial` adds `c.rows ≠ []`.
@@ -167,20 +169,29 @@ theorem C15_packet_count_mismatch (env : Env) (st : PState) (cfg : W.Cfg) (hr : 
   exact ⟨h, hs, fun handler rest => by simp only [parseEvents, hs]⟩
 
 /-- STREAM LEVEL.  A table id used by an earlier rows change `c₀` of the log (announced then, the mapper agreeing, with
-    n columns) is RE-ANNOUNCED by the rows change `c` — well formed for its own m-column definition, any kind, at least
-    one row — with m ≠ n columns: the TABLE_MAP event is accepted (the mapper is not asked again), and the run stops at
-    the rows event with err = true, crash = false, having delivered exactly the transactions of h₁, the position kept at
-    the boundary before `u`. -/
-theorem C15_bytes_count_redefinition_rejected_partial (cfg : W.Cfg) (env : Env) (h₁ : W.History) (u : W.Unit) (h₂ : W.History)
+    n columns) is RE-ANNOUNCED by the rows change `c` FOR THE SAME TABLE (database and name) — well formed for its own
+    m-column definition, any kind, at least one row — with m ≠ n columns: the TABLE_MAP event is accepted (the mapper is
+    not asked again), and the run stops at the rows event with err = true, crash = false, having delivered exactly the
+    transactions of h₁, the position kept at the boundary before `u`.
+
+    HISTORY.  For streamer.go as found this held without `hname` (theorem `C15_bytes_count_redefinition_rejected_partial`:
+    "on a re-announcement the mapper is not asked again, whatever the names").  Since the repair of finding F13 a
+    re-announcement under ANOTHER (database, name) makes the parser ask the mapper for that table
+    (`GV.Props.C15c.C15_packet_id_reused_other_table`): if the mapper knows it with m columns the stream simply goes
+    on, so the old statement is false for the repaired code and `hname` — the "same db / name" of the informal
+    statement — is needed. -/
+theorem C15_bytes_count_redefinition_same_table_rejected_partial (cfg : W.Cfg) (env : Env) (h₁ : W.History) (u : W.Unit)
+    (h₂ : W.History)
     (pre : List W.Change) (c c₀ : W.RowsChange) (hu : UnitAt u pre c)
     (hwf : WFUpTo cfg env h₁ u pre (rowsBefore h₁ pre)) (hc : RowsOK cfg c) (hne : c.rows ≠ [])
     (hann : c.announce = true) (h0 : c₀ ∈ rowsBefore h₁ pre) (hid : c₀.table.id = c.table.id)
+    (hname : c₀.table.db = c.table.db ∧ c₀.table.name = c.table.name)
     (hcount : c₀.table.cols.length ≠ c.table.cols.length) :
     parseEvents env (fun _ => true) (PState.init ⟨W.firstFile, 4⟩)
         ((W.serve cfg (h₁ ++ u :: h₂) ⟨W.firstFile, 4⟩).map Input.event ++ [Input.closed])
       = ⟨(W.expected cfg h₁ ⟨W.firstFile, 4⟩).map (toTx env.ext), (W.expected cfg h₁ ⟨W.firstFile, 4⟩).map (toTx env.ext),
          posOf (W.endPos cfg h₁ ⟨W.firstFile, 4⟩), true, false⟩ :=
-  count_redefinition cfg env h₁ u h₂ pre c c₀ hu hwf hc hne hann h0 hid hcount
+  count_redefinition cfg env h₁ u h₂ pre c c₀ hu hwf hc hne hann h0 hid hname hcount
 
 /-! ### non-vacuity for Goal A -/
 
@@ -442,20 +453,20 @@ theorem cA1_before (pre : List W.Change) : cA1 ∈ rowsBefore exH1 pre :=
 
 -- m < n: one column where the mapper said two — WRITE inside a transaction, DELETE autocommitted
 example : runB {} (uTx (c1 .write)) = wantB {} :=
-  C15_bytes_count_redefinition_rejected_partial {} exEnvB exH1 (uTx (c1 .write)) exH2 exPre (c1 .write) cA1 (uTx_at _)
-    (wfC_tx _ (by decide)) (c1_ok _) (by decide) rfl (cA1_before _) rfl (by decide)
+  C15_bytes_count_redefinition_same_table_rejected_partial {} exEnvB exH1 (uTx (c1 .write)) exH2 exPre (c1 .write) cA1 (uTx_at _)
+    (wfC_tx _ (by decide)) (c1_ok _) (by decide) rfl (cA1_before _) rfl ⟨rfl, rfl⟩ (by decide)
 example : runB {} (.autoRows (c1 .delete)) = wantB {} :=
-  C15_bytes_count_redefinition_rejected_partial {} exEnvB exH1 (.autoRows (c1 .delete)) exH2 [] (c1 .delete) cA1 (uAuto_at _)
-    (wfC_auto _ (by decide)) (c1_ok _) (by decide) rfl (cA1_before _) rfl (by decide)
+  C15_bytes_count_redefinition_same_table_rejected_partial {} exEnvB exH1 (.autoRows (c1 .delete)) exH2 [] (c1 .delete) cA1 (uAuto_at _)
+    (wfC_auto _ (by decide)) (c1_ok _) (by decide) rfl (cA1_before _) rfl ⟨rfl, rfl⟩ (by decide)
 -- m > n: three columns — UPDATE inside a transaction, WRITE autocommitted
 example : runB {} (uTx (c3 .update)) = wantB {} :=
-  C15_bytes_count_redefinition_rejected_partial {} exEnvB exH1 (uTx (c3 .update)) exH2 exPre (c3 .update) cA1 (uTx_at _)
-    (wfC_tx _ (by decide)) (c3_ok _) (by decide) rfl (cA1_before _) rfl (by decide)
+  C15_bytes_count_redefinition_same_table_rejected_partial {} exEnvB exH1 (uTx (c3 .update)) exH2 exPre (c3 .update) cA1 (uTx_at _)
+    (wfC_tx _ (by decide)) (c3_ok _) (by decide) rfl (cA1_before _) rfl ⟨rfl, rfl⟩ (by decide)
 example : runB {} (.autoRows (c3 .write)) = wantB {} :=
-  C15_bytes_count_redefinition_rejected_partial {} exEnvB exH1 (.autoRows (c3 .write)) exH2 [] (c3 .write) cA1 (uAuto_at _)
-    (wfC_auto _ (by decide)) (c3_ok _) (by decide) rfl (cA1_before _) rfl (by decide)
+  C15_bytes_count_redefinition_same_table_rejected_partial {} exEnvB exH1 (.autoRows (c3 .write)) exH2 [] (c3 .write) cA1 (uAuto_at _)
+    (wfC_auto _ (by decide)) (c3_ok _) (by decide) rfl (cA1_before _) rfl ⟨rfl, rfl⟩ (by decide)
 
--- the statement of `C15_bytes_count_redefinition_rejected_partial`, computed (evaluator): 8 configurations, m < n and
+-- the statement of `C15_bytes_count_redefinition_same_table_rejected_partial`, computed (evaluator): 8 configurations, m < n and
 -- m > n, the three kinds, inside a transaction and autocommitted
 #guard allCfgs.all fun cfg => [W.RowKind.write, .update, .delete].all fun k => [c1 k, c3 k].all fun c =>
   [uTx c, .autoRows c].all fun u => runB cfg u == wantB cfg
